@@ -67,8 +67,8 @@ P = {
 # dimensions added after the seeded rounds (DESIGN.md §11.5); appended to the technique text of each check
 EXTRA = {
  "C01": "histories (related predecessor builds incl. one that panics mid-encoding, builder warm-up with any mode / only changed setters re-sent); payload families UTF-8 text, special-token dictionary, class runs, extreme whole-symbol textures, codeword-steered block look-alikes; forced modes the input may not fit and lengths just beyond a pinned version's capacity (a symbol, if returned, must decode); row view (Index) == data",
- "C02": "the shared generated parts (random cells, tie sweep, steered matrices, block look-alikes: padding look-alikes, zero / constant / near-copy / generator-multiple / prefix-plus-own-remainder blocks, realistic payloads, extreme textures) with and without generated corruption",
- "C03": "side == 17+4 x the REPORTED version; every Clone copy (clone, clone_from onto larger and smaller symbols) equals the original byte for byte; row view == data; extreme textures and block look-alikes",
+ "C02": "the shared generated parts (random cells, tie sweep, steered matrices, block look-alikes: padding look-alikes, zero / constant / near-copy / generator-multiple / prefix-plus-own-remainder blocks, realistic payloads, extreme textures) with and without generated corruption; part long_lived_thread (2^8 / 2^16 builds on one thread with the generator changing at every build, checked across the wrap)",
+ "C03": "side == 17+4 x the REPORTED version; every Clone copy (clone, clone_from onto larger and smaller symbols) equals the original byte for byte; row view == data; extreme textures and block look-alikes; predecessor 9 (datamasking::mask applied to a blank canvas of the coming size on the same thread)",
  "C04": "every statement also on Clone copies (incl. clone_from onto a symbol of another level/mask/mode); the first four bits of the data stream are the reported mode's indicator (read directly, also when the rest does not parse); wasm entry points",
  "C05": "wasm exports qr/qr_svg with forced versions around the minimum; every special token at every Byte threshold -1..+4; class runs",
  "C06": "well-formed UTF-8 text at version borders; special tokens; block look-alikes",
@@ -76,15 +76,15 @@ EXTRA = {
  "C08": "default-level edge cases; cold first-use part: the eight pinned masks as the first use of the crate in a fresh process on 16 threads",
  "C09": "class runs with lengths 2^k +- 1, realistic payloads with token prefix/suffix, pinned minimal version / default level",
  "C10": "lengths around 2^16..2^20, special tokens, class runs, predecessors that panic or fail",
- "C11": "enumerated extreme textures (the symbols with the largest penalty terms: flat, mask-pattern, finder-ratio fills) in all listed versions",
- "C12": "image geometry over the whole finite range, margins on 10^k / 2^k boundaries up to 100 000, renderer warm-up perturbing every last-value-wins option or happening before the last layer, thread predecessors (multi-layer / failing render)",
- "C13": "wide margins on 10^k / 2^k boundaries, fits below the symbol size, 0..2 opaque layers under the top layer (painter's model), embedded image in a square frame (only cells clear of frame and image are asserted), renderer warm-up / thread predecessors",
- "C14": "overwrite pairs and unfit modes in setter histories, Repeat ops (2^8 / 2^10 builds in a row), failing renders, cold reference process under 12 generated environments, cold concurrent rounds (first use of the crate under contention)",
+ "C11": "enumerated extreme textures (the symbols with the largest penalty terms: flat, mask-pattern, finder-ratio fills) in all listed versions; part dark_ratio_boundary (a candidate steered by search exactly onto / one module below the 5 % steps of the dark-share term)",
+ "C12": "image geometry over the whole finite range, margins on 10^k / 2^k boundaries up to 100 000, renderer warm-up perturbing every last-value-wins option or happening before the last layer, thread predecessors (multi-layer / failing render); modules toggled in place after build() (finder zones, timing row, anywhere) in a third of the cases",
+ "C13": "wide margins on 10^k / 2^k boundaries, fits below the symbol size, 0..2 opaque layers under the top layer (painter's model), embedded image in a square frame (only cells clear of frame and image are asserted), renderer warm-up / thread predecessors; modules toggled in place after build() (finder zones, timing row, anywhere) in a third of the cases",
+ "C14": "overwrite pairs and unfit modes in setter histories, Repeat ops (2^8 / 2^10 builds in a row), failing renders, cold reference process under 12 generated environments, cold concurrent rounds (first use of the crate under contention); part concurrent_file_exports (two threads write <stem>.svg and <stem>.png of one code into one directory at the same time)",
  "C15": "map of the REPORTED version; Clone copies byte-identical; re-entrant callback (builds and renders inside the callback); raster callback observer",
- "C16": "locale / terminal environment phases (stored in replays), print() in a child process, edit-and-render-again on the same object and its clone, predecessor renders on the thread (failing / other symbol)",
- "C17": "(unchanged; in-format values compared byte for byte, malformed ones only for no-panic and well-formedness)",
+ "C16": "locale / terminal environment phases (stored in replays), print() in a child process, edit-and-render-again on the same object and its clone, predecessor renders on the thread (failing / other symbol); modules toggled in place after build() in a third of the cases",
+ "C17": "content with multi-script UTF-8 text and edge tokens (byte-order mark, zero-width / no-break space, white space, NUL, line ends, ]Q1, ECI escape, URI schemes) at the start / end; colour palette strings; bare base64 images",
  "C18": "overrides through the wasm export; sizes / gaps beyond the canvas; raster cross-check of every cell whose centre lies outside frame and image",
- "C19": "process works inside its scratch directory: relative / sub-directory destinations, file-name extensions independent of the writer, really loaded images (relative files, data URI, missing), writers that rendered before (warm-up), existing-file classes; case JSON-round-tripped before use",
+ "C19": "process works inside its scratch directory: relative / sub-directory destinations, file-name extensions independent of the writer, really loaded images (relative files, data URI, missing), writers that rendered before (warm-up), existing-file classes; case JSON-round-tripped before use; fault classes PipeClosedEarly / PipeDrained (FIFO destination of minimal capacity whose reader goes away after 16 bytes / drains everything); part concurrent_exports (two writers, same stem, same directory, at the same time)",
 }
 
 def main():
@@ -104,7 +104,7 @@ def main():
                 "engine": "fqv",
                 "level_claimed": {"category": cat, "text": text, "design_ref": "DESIGN.md §" + ref},
                 "level_note": note,
-                "technique": tech + ("; added after the seeded rounds: " + EXTRA[pid] if pid in EXTRA else ""),
+                "technique": tech + ("; added after the seeded rounds: " + EXTRA[pid] if pid in EXTRA else "") + ("" if pid in ("C07", "C11", "C17") else "; every run first repeats its quick-size pass, same seed, against fast_qr compiled WITHOUT --cfg fast_qr_verif (second harness binary, harness/target-plain)"),
             })
         else:
             na.append({"property_id": pid, "reason": "check not built yet in this session (planned: see DESIGN.md §5); nothing is claimed for it"})
@@ -113,14 +113,14 @@ def main():
         "setup_cmd": "./check.sh setup",
         "hooks": {
             "guard": "--cfg fast_qr_verif",
-            "enable": "RUSTFLAGS='--cfg fast_qr_verif' (set in /verif/harness/.cargo/config.toml [build] rustflags; cargo-fuzz targets get it through the RUSTFLAGS environment variable)",
+            "enable": "RUSTFLAGS='--cfg fast_qr_verif' (set in /verif/harness/.cargo/config.toml [build] rustflags; cargo-fuzz targets get it through the RUSTFLAGS environment variable). check.sh also builds the harness a second time with the guard OFF (RUSTFLAGS='--cfg fqv_plain', harness/target-plain): every check except C07, C11, C17 (which observe fast_qr through the hooks only) first runs against that build",
             "baseline_off_cmd": "cd /repo && cargo test --workspace --no-fail-fast --offline",
             "source_commits": hook_commits,
             "add_only": True,
         },
         "engines": [
             {"name": "fqv", "path": "/verif/harness/fqv", "serves_properties": [c["property_id"] for c in checks],
-             "kind_free_text": "Rust library + binary: proptest strategies driven by a deterministic sharded runner (seeded from VERIF_SEED), exhaustive enumeration of the finite configuration dimensions, oracles from the independent reference model in /verif/harness/refmodel, shrinking to a JSON replay; replays regress/ sentinels and the fuzz seed corpus in every run"},
+             "kind_free_text": "Rust library + binary: proptest strategies driven by a deterministic sharded runner (seeded from VERIF_SEED), exhaustive enumeration of the finite configuration dimensions, oracles from the independent reference model in /verif/harness/refmodel, shrinking to a JSON replay; replays regress/ sentinels and the fuzz seed corpus in every run. Built twice: with the hook guard on (target/) and off (target-plain/, hook-only modules compiled out)"},
             {"name": "fqv-fuzz", "path": "/verif/fuzz", "serves_properties": [c["property_id"] for c in checks if c["property_id"] != "C19"],
              "kind_free_text": "cargo-fuzz / libFuzzer targets fz_build, fz_masks, fz_svg, fz_wasm, fz_division, fz_history whose bodies call the same oracles (fqv::fuzzrt); driven by fuzz/run_campaign.sh in the thorough tier: 16 processes, fixed -runs, seeds derived from VERIF_SEED"},
         ],
